@@ -379,8 +379,16 @@ def pmap(fn: Callable, items: list, procs: int = 16) -> list:
 
     if procs <= 1 or len(items) <= 1:
         return [fn(x) for x in items]
-    with mp.get_context("fork").Pool(min(procs, len(items))) as pool:
-        return pool.map(fn, items, chunksize=1)
+    # ProcessPoolExecutor (not mp.Pool): when a worker is killed (e.g. by the kernel's OOM killer)
+    # Pool.map waits for ever, whereas the executor raises BrokenProcessPool -> infrastructure error (exit 2)
+    import concurrent.futures as cf
+    from concurrent.futures.process import BrokenProcessPool
+
+    try:
+        with cf.ProcessPoolExecutor(min(procs, len(items)), mp_context=mp.get_context("fork")) as ex:
+            return list(ex.map(fn, items, chunksize=1))
+    except BrokenProcessPool as e:
+        raise Infra(f"a worker process died abruptly (killed? out of memory?): {e}") from e
 
 
 def load_known() -> dict:
